@@ -3,6 +3,12 @@
 import json, subprocess
 props=[json.loads(l) for l in open('/verif/properties.jsonl')]
 checks = {
+ "C02": dict(cat="model_checking", tech="explicit-state exploration on the real application: every catalogue state x every adversarial (amount, currency) substitution of every amount-bearing field, both admission paths, ledger oracle on every block",
+   text="Reachable chain states are the 125 catalogue histories (every transaction kind, every block-level hook). In the state where a scenario's target is valid the target is replaced by an attack: one amount leaf set to each of {-1, -same, -huge, 0, 1, +1, 2^63, 2^64+1, 2^64+small, 10^40} crossed with the sibling currency in {same, ETH, XXX, VT}, correctly re-signed; sent through CheckTx (delivered only if admitted) and delivered directly; followed by 8 empty blocks (all maturities). After every block of every execution, including the unmodified histories, the committed key/value state is decoded into a ledger: per currency the total may grow only by the delegation rewards accrued in that block (and, for wrapped currencies, only in a block in which a tracker became final); no stored amount may be negative; key families the decoder does not know are reported.",
+   note="Amounts outside the listed representatives and values inside embedded Ethereum transactions are not enumerated (the latter are C15's subject). The decoder's notion of 'value held on chain' is listed in the evidence assumptions.", ref="DESIGN.md section 3 C02"),
+ "C03": dict(cat="model_checking", tech="explicit-state exploration on the real application: every catalogue state x every address field pointed at another account x every candidate signer set, both admission paths, per-owner ledger oracle on every block",
+   text="Same explorer as C02 with the address attack family: every address leaf of the valid target is set to the attacker, another user, a stake account and a validator address (thorough: all of them), and the transaction is signed by the original signers, by the attacker alone and with the attacker substituted at each signer position; both admission paths; 8 trailing blocks. After every block the holdings (balances in every currency, locked/unlocking/withdrawable stake, delegated and undelegating amounts, delegation reward claims) of every externally owned account may only decrease if the account signed a transaction included in that block, or is the stake account of a validator that signed one or was found guilty in that block.",
+   note="Externally owned accounts = all accounts whose keys the world knows; pools and contracts are not subjects of C03.", ref="DESIGN.md section 3 C03"),
  "C04": dict(cat="exploration", tech="exhaustive single-field mutation of valid signed transactions of every kind, executed on the real application (CheckTx + delivered in a block vs. twin)",
    text="Every operator of a finite mutation list (each payload leaf, each fee field, memo, every other type, signature bytes, signer key, key algorithm, signature list shape; thorough: one bit flip at every byte) is applied to a valid transaction of every kind in a state where it succeeds; each mutant must be rejected by CheckTx and leave state, app hash and validator updates equal to the twin run without it. Exhaustive over kinds x operators; not over all byte strings.",
    note="Trusted: the harness' Tendermint stand-in and tx factory; covers the kinds that have a catalogue scenario (listed in the evidence). Operators that only change the unused Signer key of sender-recovery (OLVM) signatures are classed as re-encodings (C05).", ref="DESIGN.md section 3 C04"),
